@@ -285,3 +285,40 @@ theorem radixsortCE3_spec (c : Consts) (wl : Bool) (hM : MkqsOk str c wl) (hPerm
       · exact ce3Loop_spec str c wl hM _ ss l d 1 _ (radixFuel_enough str ss d) hpre
 
 end TlxVerif.C03
+
+namespace TlxVerif.C03
+
+variable {α : Type} (str : α → Str)
+
+/-- the memory limit does not force radixsort_CE2 into the in-place fall-back radixsort_CI3
+(`memory = 0`, the default, or enough for the shadow array, the character cache and three steps) -/
+def NoInPlaceFallback (c : Consts) (n mem : Nat) : Prop :=
+  ¬ (mem ≠ 0 ∧ mem < 2 * 8 + c.szSet + n * 1 + n * c.szStr + 3 * c.stepCE2 + 1)
+
+theorem radixsortCE2_spec_out (c : Consts) (wl : Bool) (hM : MkqsOk str c wl)
+    (d : Nat) (ss : List α) (l : List Nat) (mem : Nat) (hmem : NoInPlaceFallback c ss.length mem)
+    (hpre : Pre str wl d ss l) :
+    SortSpec str wl ss l (radixsortCE2 str c wl d ss l mem) := by
+  unfold radixsortCE2
+  split
+  · exact insertionSort_spec str wl d ss l hpre
+  · simp only
+    split
+    · rename_i h; exact absurd h hmem
+    · exact ce8Loop_spec str c wl _ hM _ ss l d 1 _ (radixFuel_enough str ss d) hpre
+
+theorem radixsortCE3_spec_out (c : Consts) (wl : Bool) (hM : MkqsOk str c wl)
+    (d : Nat) (ss : List α) (l : List Nat) (mem : Nat) (hmem : NoInPlaceFallback c ss.length mem)
+    (hpre : Pre str wl d ss l) :
+    SortSpec str wl ss l (radixsortCE3 str c wl d ss l mem) := by
+  unfold radixsortCE3
+  split
+  · exact insertionSort_spec str wl d ss l hpre
+  · split
+    · exact radixsortCE2_spec_out str c wl hM d ss l mem hmem hpre
+    · simp only
+      split
+      · exact radixsortCE2_spec_out str c wl hM d ss l mem hmem hpre
+      · exact ce3Loop_spec str c wl hM _ ss l d 1 _ (radixFuel_enough str ss d) hpre
+
+end TlxVerif.C03
